@@ -13,15 +13,82 @@ FILES = [RB]
 SYNTAX = ("{{", r"\{\{")
 
 
-def is_syntax_pattern(e):
-    """constant / f-string that contains the template delimiter"""
+_CTX = {"module": None, "cls": None}      # the module / class whose constants are consulted (set by run)
+
+
+def _named_value(name_expr):
+    """the expression a module-level / class-level constant name is bound to (None if it is not such a name)"""
+    mod, cls = _CTX["module"], _CTX["cls"]
+    if isinstance(name_expr, ast.Name) and mod is not None:
+        for st in mod.tree.body:
+            if isinstance(st, ast.Assign) and any(isinstance(t, ast.Name) and t.id == name_expr.id for t in st.targets):
+                return st.value
+            if isinstance(st, ast.AnnAssign) and isinstance(st.target, ast.Name) and st.target.id == name_expr.id and st.value is not None:
+                return st.value
+        if cls is not None and name_expr.id in cls.assigns:
+            return cls.assigns[name_expr.id]
+    if isinstance(name_expr, ast.Attribute) and isinstance(name_expr.value, ast.Name) and cls is not None and name_expr.value.id in ("self", "cls", cls.name):
+        return cls.assigns.get(name_expr.attr)
+    return None
+
+
+def const_str(e, depth=0):
+    """the string a constant expression denotes: a literal, or a module/class-level name bound to one"""
     if isinstance(e, ast.Constant) and isinstance(e.value, str):
-        return any(s in e.value for s in SYNTAX)
+        return e.value
+    if depth < 3:
+        v = _named_value(e)
+        if v is not None:
+            return const_str(v, depth + 1)
+    return None
+
+
+def pattern_text(e, depth=0):
+    """regex source of a pattern expression: a literal / f-string, a named constant, or a named `re.compile(<literal>)`"""
+    c = const_str(e)
+    if c is not None:
+        return c
     if isinstance(e, ast.JoinedStr):
-        return any(isinstance(v, ast.Constant) and "{{" in str(v.value) for v in e.values)
+        return "".join(str(v.value) if isinstance(v, ast.Constant) else "\\w" for v in e.values)
+    if isinstance(e, ast.Call) and dotted(e.func) == "re.compile" and e.args:
+        return pattern_text(e.args[0], depth + 1)
+    if depth < 3:
+        v = _named_value(e)
+        if v is not None:
+            return pattern_text(v, depth + 1)
+    return None
+
+
+def is_syntax_pattern(e):
+    """constant / f-string / named constant / compiled pattern that contains the template delimiter"""
+    t = pattern_text(e)
+    if t is not None:
+        return any(s in t for s in SYNTAX)
     if isinstance(e, ast.Name):
         return None     # resolved by the caller through reaching definitions
     return False
+
+
+RE_FUNCS = ("sub", "subn", "finditer", "findall", "search", "match", "fullmatch", "split")
+
+
+def scan_site(c, consts):
+    """(pattern expr, function, replacement expr | None) when call `c` scans a string with a regex: re.f(pat, …) or
+    <compiled pattern>.f(…); None otherwise"""
+    if not isinstance(c, ast.Call):
+        return None
+    d = dotted(c.func) or ""
+    if d.startswith("re.") and d[3:] in RE_FUNCS and c.args:
+        pat = c.args[0]
+        if isinstance(pat, ast.Name) and pat.id in consts:
+            pat = consts[pat.id]
+        return pat, d[3:], (c.args[1] if d[3:] in ("sub", "subn") and len(c.args) > 1 else None)
+    if isinstance(c.func, ast.Attribute) and c.func.attr in RE_FUNCS:
+        recv = c.func.value
+        v = _named_value(recv)
+        if v is not None and isinstance(v, ast.Call) and dotted(v.func) == "re.compile":
+            return recv, c.func.attr, (c.args[0] if c.func.attr in ("sub", "subn") and c.args else None)
+    return None
 
 
 class Pass:
@@ -56,14 +123,21 @@ def run(p, led, tier):
     led.rule("C12-R1", "no step scans for template syntax in text that already contains unescaped bound values / items / defaults / included renderings", 5)
     led.rule("C12-R2", "missing simple variable ⇒ warning; strict mode raises before rendering; unknown include ⇒ explicit marker", 3)
 
-    escapers = _escapers(rib)
+    _CTX["module"], _CTX["cls"] = rib.module, rib
+    _CTX["ctx_names"] = None
+    escapers = _escapers(rib, p)
     led.extra["escaping_functions"] = sorted(escapers)
-    passes = {}
-    for m in rib.methods.values():
-        if m.name.startswith("_process") or m is tr:
-            passes[m.name] = _summarise(m, rib, escapers)
-    if len([k for k in passes if k.startswith("_process")]) < 4:
-        raise AnchorError(f"renderer passes found: {sorted(passes)} (expected conditionals, loops, includes, variables)")
+    # passes by role: the methods below translate() that scan their text for template syntax
+    below = [g for g in res.reachable_from(tr) if g.cls is rib and g is not tr]
+    pass_fns = [g for g in below if _has_syntax_scan(g)]
+    _CTX["pass_names"] = {g.name for g in pass_fns}
+    _CTX["res"], _CTX["rib"] = res, rib
+    passes = {tr.name: _summarise(tr, rib, escapers)}
+    for m in pass_fns:
+        passes[m.name] = _summarise(m, rib, escapers)
+    led.extra["passes"] = sorted(g.name for g in pass_fns)
+    if len(pass_fns) < 4:
+        raise AnchorError(f"renderer passes found: {sorted(g.name for g in pass_fns)} (expected conditionals, loops, includes, variables)")
 
     n_flows = 0
     # ---- flows inside one pass
@@ -133,7 +207,7 @@ def run(p, led, tier):
                 led.fail("C12-R1", key, where(tr, un[0]), "the escape is reverted before a later pass scans the text")
 
     # ---------------- R3 no stale renderings: a memo of rendered text must be keyed on the whole binding dictionary
-    render_fns = [m for m in rib.methods.values() if m is tr or m.name.startswith("_process") or m.name.startswith("_render")]
+    render_fns = [tr] + pass_fns
     reach = {}
     for m in render_fns:
         for g in res.reachable_from(m):
@@ -152,9 +226,9 @@ def run(p, led, tier):
                 if isinstance(keyexpr, ast.Name):
                     defs = [a for a in walk_no_nested(g.node) if isinstance(a, ast.Assign) and isinstance(a.targets[0], ast.Name) and a.targets[0].id == keyexpr.id]
                     kdef = defs[-1].value if defs else keyexpr
-                whole = any(isinstance(x, ast.Call) and isinstance(x.func, ast.Attribute) and x.func.attr == "items" and isinstance(x.func.value, ast.Name) and x.func.value.id == "context"
+                whole = any(isinstance(x, ast.Call) and isinstance(x.func, ast.Attribute) and x.func.attr == "items" and isinstance(x.func.value, ast.Name) and x.func.value.id in _ctx_names()
                             for x in ast.walk(kdef)) or any(isinstance(x, ast.Call) and isinstance(x.func, ast.Name) and x.func.id in ("repr", "str", "frozenset", "tuple", "sorted")
-                                                          and any(isinstance(y, ast.Name) and y.id == "context" for y in x.args) for x in ast.walk(kdef))
+                                                          and any(isinstance(y, ast.Name) and y.id in _ctx_names() for y in x.args) for x in ast.walk(kdef))
                 key = f"Ribosome.{g.name} ▸ memo self.{attr}[…]"
                 if whole:
                     led.ok("C12-R3", key, where(g, n), "the memo key covers the whole binding dictionary")
@@ -167,37 +241,58 @@ def run(p, led, tier):
         led.ok("C12-R3", "Ribosome ▸ rendering keeps no memo between calls", RB, f"{len(reach)} functions on the rendering path write no keyed state", nontrivial=False)
 
     # ---------------- R2 structure
-    pv = rib.methods.get("_process_variables")
+    def pass_with(label):
+        for name, ps in passes.items():
+            if name != tr.name and any(st.get("label") == label for st in ps.steps):
+                return ps.fi
+        return None
+    pv = pass_with("simple")
     # missing simple variable -> warning on the path that leaves it unexpanded
     okw = False
     if pv is not None:
-        for f in ast.walk(pv.node):
-            if isinstance(f, ast.FunctionDef) and f is not pv.node:
-                rets = [r for r in ast.walk(f) if isinstance(r, ast.Return)]
-                for r in rets:
-                    if isinstance(r.value, ast.Call) and src(r.value).endswith("group(0)"):
-                        # the statement just before must append a warning (simple-variable callback)
-                        body = _enclosing_body(f, r)
-                        idx = body.index(r) if r in body else -1
-                        if idx > 0 and "warnings.append" in src(body[idx - 1]) and "nbound" in src(body[idx - 1]):
-                            okw = True
-    key = "Ribosome._process_variables ▸ missing simple variable leaves a warning"
+        cbs = [f for f in ast.walk(pv.node) if isinstance(f, ast.FunctionDef) and f is not pv.node]
+        for f in cbs:
+            rets = [r for r in ast.walk(f) if isinstance(r, ast.Return)]
+            for r in rets:
+                if isinstance(r.value, ast.Call) and src(r.value).endswith("group(0)"):
+                    # the statement just before must record a warning (append to a list the pass received, or to self state)
+                    body = _enclosing_body(f, r)
+                    idx = body.index(r) if r in body else -1
+                    if idx > 0:
+                        prev = body[idx - 1]
+                        for c in ast.walk(prev):
+                            if isinstance(c, ast.Call) and isinstance(c.func, ast.Attribute) and c.func.attr in ("append", "add", "warn", "warning") and \
+                                    ((isinstance(c.func.value, ast.Name) and c.func.value.id in pv.params()) or is_self_attr(c.func.value) or "warn" in src(c.func)):
+                                okw = True
+    key = f"Ribosome.{pv.name if pv else '?'} ▸ missing simple variable leaves a warning"
     if okw:
-        led.ok("C12-R2", key, where(pv, pv.node), "the callback that leaves `{{name}}` in place appends 'Unbound variable' first")
+        led.ok("C12-R2", key, where(pv, pv.node), "the callback that leaves `{{name}}` in place records a warning first")
     else:
         led.fail("C12-R2", key, where(pv or tr, (pv or tr).node), "an unbound simple variable is left (or dropped) without a warning")
-    # strict mode raises before rendering
+    # strict mode raises before rendering: in translate itself, or in a helper it calls before the first pass
     cfg = cfg_of(tr, led)
-    raises = [n for n in cfg.nodes if n.kind == "stmt" and isinstance(n.ast, ast.Raise)]
-    strict_raise = [n for n in raises if any(is_self_attr(a, "strict") and pol for a, pol, _ in guard_facts(cfg, n))]
     first_pass = min((st["node"].lineno for st in trp.steps if st.get("callee") in passes), default=10**9)
+
+    def strict_raises(fi_, cfg_):
+        rs = [n for n in cfg_.nodes if n.kind == "stmt" and isinstance(n.ast, ast.Raise)]
+        return [n for n in rs if any(is_self_attr(a, "strict") and pol for a, pol, _ in guard_facts(cfg_, n))]
+    strict_raise = [n for n in strict_raises(tr, cfg) if n.line < first_pass]
+    via = None
+    if not strict_raise:
+        for n in walk_no_nested(tr.node):
+            if isinstance(n, ast.Call) and n.lineno < first_pass:
+                for g in res.resolve_call(tr, n):
+                    if g.cls is rib and g is not tr and g.name not in passes and strict_raises(g, cfg_of(g, led)):
+                        via = (n, g)
     key = "Ribosome.translate ▸ strict mode raises before rendering"
-    if strict_raise and all(n.line < first_pass for n in strict_raise):
+    if strict_raise:
         led.ok("C12-R2", key, where(tr, strict_raise[0].ast), "`raise` under `self.strict` for a missing required variable precedes every pass")
+    elif via:
+        led.ok("C12-R2", key, where(tr, via[0]), f"`{short(via[0], 50)}` runs before the first pass and raises under `self.strict` ({via[1].qual})")
     else:
         led.fail("C12-R2", key, where(tr, tr.node), "strict mode does not raise for a missing required variable before rendering starts")
-    inc = rib.methods.get("_process_includes")
-    key = "Ribosome._process_includes ▸ unknown include yields the explicit marker"
+    inc = pass_with("includes")
+    key = f"Ribosome.{inc.name if inc else '?'} ▸ unknown include yields the explicit marker"
     okm = inc is not None and any(isinstance(r, ast.Return) and isinstance(r.value, ast.JoinedStr) and "Unknown template" in src(r.value) for r in ast.walk(inc.node))
     if okm:
         led.ok("C12-R2", key, where(inc, inc.node), "`[Unknown template: name]` is returned when the name is not registered")
@@ -206,10 +301,52 @@ def run(p, led, tier):
 
 
 # ----------------------------------------------------------------------
-def _escapers(rib):
-    """names of methods that rewrite the template delimiter in their argument on *every* return path (escaping functions)"""
+def _ctx_names():
+    """names under which the binding dictionary travels: the dict-typed parameters of translate() and the passes,
+    and locals built from them by dict displays / dict(...) / .copy()"""
+    if _CTX.get("ctx_names") is None:
+        names = {"context", "loop_context"}
+        rib = _CTX.get("rib")
+        if rib is not None:
+            fns = [m for m in rib.methods.values() if m.name == "translate" or m.name in _CTX.get("pass_names", ())]
+            for m in fns:
+                for a in m.node.args.args + m.node.args.kwonlyargs:
+                    if a.annotation is not None and "dict" in src(a.annotation).lower() and a.arg != "self":
+                        names.add(a.arg)
+            changed = True
+            while changed:
+                changed = False
+                for m in fns:
+                    for n in ast.walk(m.node):
+                        if isinstance(n, ast.Assign) and len(n.targets) == 1 and isinstance(n.targets[0], ast.Name) and n.targets[0].id not in names:
+                            v = n.value
+                            uses = any(isinstance(y, ast.Name) and y.id in names for y in ast.walk(v))
+                            if uses and (isinstance(v, ast.Dict) or (isinstance(v, ast.Call) and (dotted(v.func) in ("dict",) or (isinstance(v.func, ast.Attribute) and v.func.attr == "copy")))):
+                                names.add(n.targets[0].id)
+                                changed = True
+        _CTX["ctx_names"] = names
+    return _CTX["ctx_names"]
+
+
+def _has_syntax_scan(g):
+    consts = {}
+    for n in walk_no_nested(g.node):
+        if isinstance(n, ast.Assign) and isinstance(n.targets[0], ast.Name) and isinstance(n.value, ast.Constant) and isinstance(n.value.value, str):
+            consts[n.targets[0].id] = n.value
+    for n in ast.walk(g.node):
+        sc = scan_site(n, consts)
+        if sc and is_syntax_pattern(sc[0]):
+            return True
+    return False
+
+
+def _escapers(rib, p=None):
+    """names of methods / module functions that rewrite the template delimiter in their argument on *every* return path (escaping functions)"""
     out = set()
-    for m in rib.methods.values():
+    cands = list(rib.methods.values())
+    if p is not None:
+        cands += [f for fs in p.functions.values() for f in fs if f.module is rib.module and f.cls is None]
+    for m in cands:
         rets = [n for n in walk_no_nested(m.node) if isinstance(n, ast.Return) and n.value is not None]
         if not rets:
             continue
@@ -217,8 +354,8 @@ def _escapers(rib):
         def rewrites(e):
             for c in ast.walk(e):
                 if isinstance(c, ast.Call) and isinstance(c.func, ast.Attribute) and c.func.attr == "replace" and c.args \
-                        and isinstance(c.args[0], ast.Constant) and c.args[0].value == "{{" and len(c.args) > 1 \
-                        and not (isinstance(c.args[1], ast.Constant) and "{{" in str(c.args[1].value)):
+                        and const_str(c.args[0]) == "{{" and len(c.args) > 1 \
+                        and not ("{{" in (const_str(c.args[1]) or "")):
                     return True
             return False
         if all(rewrites(r.value) for r in rets):
@@ -232,11 +369,28 @@ def _unescape_sites(tr, escapers):
     out = []
     for n in walk_no_nested(tr.node):
         if isinstance(n, ast.Call) and isinstance(n.func, ast.Attribute) and n.func.attr in ("replace",) and len(n.args) > 1 \
-                and isinstance(n.args[1], ast.Constant) and n.args[1].value == "{{":
+                and const_str(n.args[1]) == "{{":
             out.append(n)
-        if isinstance(n, ast.Call) and is_self_attr(n.func) and "unescape" in n.func.attr:
+        elif isinstance(n, ast.Call) and _is_unescaper_call(n):
             out.append(n)
     return out
+
+
+def _is_unescaper_call(call):
+    """call of a helper (self.m / Class.m / m) every return of which restores the delimiter (`….replace(<marker>, "{{")`)"""
+    rib, res = _CTX.get("rib"), _CTX.get("res")
+    f = call.func
+    name = f.attr if isinstance(f, ast.Attribute) else (f.id if isinstance(f, ast.Name) else None)
+    if name is None or rib is None:
+        return False
+    g = rib.methods.get(name)
+    if g is None and res is not None:
+        g = next((x for x in res.p.functions.get(name, []) if x.module is rib.module), None)
+    if g is None:
+        return False
+    rets = [r for r in walk_no_nested(g.node) if isinstance(r, ast.Return) and r.value is not None]
+    return bool(rets) and all(any(isinstance(c, ast.Call) and isinstance(c.func, ast.Attribute) and c.func.attr == "replace" and len(c.args) > 1 and const_str(c.args[1]) == "{{"
+                                  for c in ast.walk(r.value)) for r in rets)
 
 
 def _enclosing_body(fn, node):
@@ -252,11 +406,11 @@ def _source_kind(e, fn, escapers, local_sources):
     """what kind of source text expression e carries (None = none / escaped)"""
     if isinstance(e, ast.Call):
         f = e.func
-        if (is_self_attr(f) and f.attr in escapers) or (isinstance(f, ast.Name) and f.id in escapers):
+        if (isinstance(f, ast.Attribute) and f.attr in escapers and isinstance(f.value, ast.Name)) or (isinstance(f, ast.Name) and f.id in escapers):
             return None
         if isinstance(f, ast.Name) and f.id == "str" and e.args:
             return _source_kind(e.args[0], fn, escapers, local_sources)
-        if isinstance(f, ast.Attribute) and f.attr == "get" and isinstance(f.value, ast.Name) and f.value.id in ("context", "loop_context"):
+        if isinstance(f, ast.Attribute) and f.attr == "get" and isinstance(f.value, ast.Name) and f.value.id in _ctx_names():
             return "bound values"
         if isinstance(f, ast.Subscript) and "filters" in src(f.value):
             return "filter output"
@@ -272,7 +426,7 @@ def _source_kind(e, fn, escapers, local_sources):
                 k = _source_kind(a, fn, escapers, local_sources)
                 if k:
                     return k
-    if isinstance(e, ast.Subscript) and isinstance(e.value, ast.Name) and e.value.id in ("context", "loop_context"):
+    if isinstance(e, ast.Subscript) and isinstance(e.value, ast.Name) and e.value.id in _ctx_names():
         return "bound values"
     if isinstance(e, ast.Attribute) and e.attr == "sequence" and isinstance(e.value, ast.Name) and e.value.id in local_sources:
         return local_sources[e.value.id]
@@ -312,7 +466,7 @@ def _callback_inserts(cb, escapers):
             if isinstance(n, ast.For):
                 # loop items drawn from a bound collection
                 names = [x.id for x in ast.walk(n.target) if isinstance(x, ast.Name)]
-                if any(isinstance(y, ast.Name) and y.id in local_sources for y in ast.walk(n.iter)) or "context" in src(n.iter):
+                if any(isinstance(y, ast.Name) and y.id in local_sources for y in ast.walk(n.iter)) or any(isinstance(y, ast.Name) and y.id in _ctx_names() for y in ast.walk(n.iter)):
                     for nm_ in names:
                         if nm_ not in local_sources and nm_ not in ("i", "idx", "index"):
                             local_sources[nm_] = "loop items"
@@ -368,31 +522,43 @@ def _summarise(fi, rib, escapers):
                 continue
             seen_calls.add(id(c))
             d = dotted(c.func) or ""
-            # self._process_x(...) / self.translate(...)
-            if is_self_attr(c.func) and (c.func.attr.startswith("_process") or c.func.attr == "translate"):
+            pass_names = _CTX.get("pass_names", set())
+            # a call of another pass / of translate() itself (recursion for includes), directly or through a table of passes
+            if is_self_attr(c.func) and (c.func.attr in pass_names or c.func.attr == "translate"):
                 ps.steps.append(dict(kind="call", node=c, label=c.func.attr, callee=c.func.attr, inserts=False, scans=False))
                 continue
-            if d in ("re.sub", "re.finditer", "re.findall", "re.search", "re.match") and c.args:
-                pat = c.args[0]
-                if isinstance(pat, ast.Name) and pat.id in consts:
-                    pat = consts[pat.id]
+            if isinstance(c.func, ast.Name) and _CTX.get("res") is not None and c.func.id not in callbacks:
+                tg = [g for g in _CTX["res"].dispatch_targets(fi, c.func) if g.name in pass_names]
+                if tg:
+                    for g in tg:
+                        ps.steps.append(dict(kind="call", node=c, label=g.name, callee=g.name, inserts=False, scans=False))
+                    continue
+            sc = scan_site(c, consts)
+            if sc is not None:
+                pat, fn_, rep = sc
                 if not is_syntax_pattern(pat):
                     continue
                 label = _label(pat)
                 inserts, what = False, None
-                if d == "re.sub" and len(c.args) > 1:
-                    rep = c.args[1]
+                cbnode = None
+                if rep is not None:
                     if isinstance(rep, ast.Name) and rep.id in callbacks:
-                        k, _ = _callback_inserts(callbacks[rep.id], escapers)
+                        cbnode = callbacks[rep.id]
+                    elif is_self_attr(rep) and _CTX.get("rib") is not None and rep.attr in _CTX["rib"].methods:
+                        cbnode = _CTX["rib"].methods[rep.attr].node
+                    elif isinstance(rep, ast.Lambda):
+                        cbnode = ast.FunctionDef(name="<lambda>", args=rep.args, body=[ast.Return(value=rep.body)], decorator_list=[], lineno=rep.lineno, col_offset=rep.col_offset)
+                if cbnode is not None:
+                        k, _ = _callback_inserts(cbnode, escapers)
                         inserts, what = bool(k), k
                         # loop-carried replace chain inside the callback
-                        for n in ast.walk(callbacks[rep.id]):
+                        for n in ast.walk(cbnode):
                             if isinstance(n, ast.For):
                                 for b in ast.walk(n):
                                     if isinstance(b, ast.Call) and isinstance(b.func, ast.Attribute) and b.func.attr == "replace" and b.args and is_syntax_pattern(b.args[0]) is not False \
                                             and isinstance(b.args[0], (ast.JoinedStr, ast.Constant)) and len(b.args) > 1:
-                                        k2, ls = _callback_inserts(callbacks[rep.id], escapers)
-                                        val_kind = _source_kind(b.args[1], callbacks[rep.id], escapers, dict(ls, value="loop items") if "value" in src(b.args[1]) else ls)
+                                        k2, ls = _callback_inserts(cbnode, escapers)
+                                        val_kind = _source_kind(b.args[1], cbnode, escapers, dict(ls, value="loop items") if "value" in src(b.args[1]) else ls)
                                         if val_kind:
                                             ps.internal_flows.append((f"{label}:key[i]", f"{label}:key[i+1]", b))
                 ps.steps.append(dict(kind="scan", node=c, label=label, scans=True, inserts=inserts, what=what))
@@ -413,7 +579,7 @@ def _summarise(fi, rib, escapers):
 
 
 def _label(pat):
-    s = pat.value if isinstance(pat, ast.Constant) else src(pat)
+    s = pattern_text(pat) or src(pat)
     if "#if" in s:
         return "conditionals"
     if "#each" in s:
